@@ -121,8 +121,9 @@ def install_async_hooks(ctx, events):
                 hooks[f.name] = mk(f.method)
             if ity == 'RemotePeerHandle' and f.method == 'send':
                 def send_hook(ctx_, args):
+                    # the reply is recorded and completes at once: what the handler does AFTER answering is still observed
                     events.append(('send', args[1], args[2], args[3], args[4]))
-                    raise SegmentEnd('send')
+                    return Opaque('ready-future', ok(UNIT))
                 hooks[f.name] = send_hook
             if ity == 'InboundQueryService' and f.method == 'add_allowed_room':
                 def add_hook(ctx_, args):
@@ -205,6 +206,9 @@ def explore_inbound(ctx, shape, tier, report):
             success = sends[0][2]
             if qname in ROOM_SCOPED and not db:
                 conds.append(('a refused request is answered with success', znot(zb(success))))
+            if qname in ROOM_SCOPED and db and events.index(sends[0]) < events.index(db[0]):
+                # a reply came before the data access: it can only have been the refusal
+                conds.append(('data is read after the request was refused (%s)' % db[0][1], zb(success)))
             if qname == 'HardwareFingerprint':
                 conds.append(('the hardware fingerprint is sent to another key', zand(nonempty, seq(bound, own))))
         for label, c in conds:
@@ -304,7 +308,7 @@ def scenario(ctx, m, kind, info):
               room=c.atom(info['room']), bound_key=c.atom(info['bound']), conn_ready=c.bool(info['ready']))
     db = [e for e in info['events'] if e[0] == 'db']
     if sh['query'] in ROOM_SCOPED:
-        sc['expect'] = dict(authorisation_refused=not db)
+        sc['expect'] = dict(data_served=bool(db))
     elif sh['query'] == 'RoomList':
         sc['expect'] = dict(answered=bool(db))
     else:
